@@ -1,6 +1,7 @@
 """C06 — text format output reads back to the same structure (structural clauses)."""
 from checks.common import Ctx
 from sa.report import Check
+from sa.rules import synth_rules as SYN
 from sa.rules import backend as B
 from sa.rules import cpp_rules as C
 from sa.rules import pipeline as P
@@ -41,4 +42,5 @@ def main(tier):
     chk.run("R-ALIASDEPS", DR.aliasdeps, r, floor=2)
     chk.run("R-FLOATTEXT", C.floattext, cx.repo, floor=3)
     chk.run("R-TEXTPAIR", B.textpair, cx.repo, cx.templates, cx.cpp, floor=4)
+    chk.run("R-ALIASATTR", SYN.aliasattr, cx.repo, floor=3)
     return chk.finish()
